@@ -42,6 +42,8 @@ def install(ex):
     ex.model(r'<(&)?str as std::(string::ToString|borrow::ToOwned)>::\w+|<std::string::String as std::convert::From<&str>>::from|std::string::String::from|<str as std::convert::Into<std::string::String>>::into', lambda e, n, a: a[0])
     # tracing: every event is guarded by `Level <= STATIC_MAX_LEVEL && Level <= LevelFilter::current()`: logging off
     ex.model(r'<tracing::Level as std::cmp::PartialOrd<tracing::level_filters::LevelFilter>>::le', lambda e, n, a: False)
+    ex.model(r'tracing::Span::(is_disabled|is_none)|tracing::subscriber::Interest::is_never|tracing_core::subscriber::Interest::is_never', lambda e, n, a: True)
+    ex.model(r'tracing::__macro_support::__is_enabled|tracing::Span::(has_field|is_enabled).*|tracing(_core)?::(dispatcher::)?Dispatch::enabled', lambda e, n, a: False)
     ex.model(r'tracing::.*|tracing_core::.*|<tracing::.*', lambda e, n, a: Opaque('tracing'))
     ex.model(r'vise::.*|<vise::.*|.*::metrics::.*', lambda e, n, a: Opaque('metrics'))
     ex.error_from = lambda e, n, v: v if not re.search(r'Result<.*anyhow::Error>', M.parse_name(n)[0]) else anyhow_err()
